@@ -293,6 +293,10 @@ func (env *SpecEnv) coerce(a, b Val) (Val, Val) {
 				}
 			}
 		}
+		if o.T.Sort == SIface && c.T.Sort != SIface && c.Typ != nil && !isUntyped(c.Typ) && !types.IsInterface(c.Typ) {
+			// concrete value compared with an interface value: box it
+			return Val{K: VTerm, T: env.x.makeIface(env.st, c, c.Typ), Typ: o.Typ}
+		}
 		if isUntypedConst(c) && c.Retype != nil && o.Typ != nil && !isUntyped(o.Typ) {
 			return c.Retype(o.Typ)
 		}
